@@ -988,7 +988,20 @@ def Attr.noDump : Attr → Attr
 
 /-- C19: the same request with and without its `dump` flags -/
 def metaDumpCases (seed idx : Nat) : List Case :=
-  let base := genItemCase cfgDump "metaDump" seed idx
+  -- one group in four from the unbiased configuration: requests that are refused as a whole (an unknown trait, a trait
+  -- that is not supported for enums, a misplaced argument) next to dumped traits
+  let base := genItemCase (if idx % 4 == 2 then { cfgWild with dumpPct := 35 } else cfgDump) "metaDump" seed idx
+  -- one group in eight: an otherwise valid enum whose request also names a trait that is not supported for enums — the
+  -- whole request is refused, whatever is dumped
+  let base :=
+    if idx % 8 == 5 then
+      match base.item, base.entry with
+      | .enum_ _, .attr a =>
+        let op := ["Neg", "Add", "Deref", "SubAssign", "Not", "DerefMut"].getD ((seed + idx / 8) % 6) "Neg"
+        let pos := (seed + idx / 8) % (a.items.length + 1)
+        { base with entry := .attr { a with items := a.items.take pos ++ [{ trait_ := op }] ++ a.items.drop pos } }
+      | _, _ => base
+    else base
   let id := s!"metaDump/{seed}/{idx}"
   let plainItem := base.item.withAttrs (base.item.attrs.map Attr.noDump)
   let plainEntry := match base.entry with
